@@ -264,54 +264,141 @@ theorem uvarlen_one : uvarlen 1 = 1 := by
   have : lenU 2 = 1 := Proof.C17.lenU_lt (by omega)
   simp [uvarlen, uvarintLen, uvar32, this]
 
-theorem tryAddBatchLength_eq (pv : Int) (topic : Bytes) (existing : Option Nat) (b : Batch) :
-    tryAddBatchLength pv topic existing b =
-      4 + bwl pv b + (match existing with
-        | none => topicOverhead pv topic
-        | some n => if pv ≥ 9 then uvarlen (n + 1) - uvarlen n else 0) := by
+/-! The definitions above (`topicOverhead`, `partsAcct`, `topicAcct`, `topicsAcct`) are the lengths *without* the
+tag sections of the flexible versions; `tryAddBatch` (since the repair e8757ce) additionally accounts one byte
+per partition and per topic for them, the growth of the compact topics-array length, and — while the version
+is unknown — a topic id where the name is short. The `…N` definitions are that accounting in closed form. -/
+
+theorem uvarlen_zero : uvarlen 0 = 1 := by
+  have : lenU 1 = 1 := Proof.C17.lenU_lt (by omega)
+  simp [uvarlen, uvarintLen, uvar32, this]
+
+theorem uvarlen_eq (n : Nat) : uvarlen n = uvarintLen (1 + n) := by
+  simp only [uvarlen, uvar32]
+  have : (1 + (n : Int)).toNat = 1 + n := by omega
+  rw [this]
+
+theorem lenU_le_self (k : Nat) (hk : 1 ≤ k) : lenU k ≤ k := by
+  induction k using Nat.strongRecOn with
+  | _ k ih =>
+    by_cases h : k < 128
+    · rw [Proof.C17.lenU_lt h]; exact hk
+    · rw [Proof.C17.lenU_ge h]
+      have := ih (k / 128) (by omega) (by omega)
+      omega
+
+theorem uvarlen_le_succ (n : Nat) : uvarlen n ≤ (n : Int) + 1 := by
+  rw [uvarlen_eq]
+  have := lenU_le_self (1 + n) (by omega)
+  simp only [uvarintLen]; omega
+
+theorem uvarlen_pos (n : Nat) : 1 ≤ uvarlen n := by
+  rw [uvarlen_eq]; have := uvarintLen_pos (1 + n); omega
+
+/-- the partition tag byte `tryAddBatch` accounts: flexible or version unknown -/
+def tagP (pv : Int) : Int := if pv ≥ 9 ∨ pv < 0 then 1 else 0
+
+/-- what `tryAddBatch` accounts for a new topic -/
+def topicOverheadN (pv : Int) (topic : Bytes) : Int :=
+  if pv ≥ 13 then 16 + 1 + 1
+  else if pv ≥ 9 then uvarlen topic.length + topic.length + 1 + 1
+  else if pv < 0 ∧ (2 + (topic.length : Int) + 4 < 16 + 1 + 1) then 16 + 1 + 1
+  else 2 + topic.length + 4
+
+def partsAcctN (pv : Int) : List PartBatch → Int
+  | [] => 0
+  | p :: ps => 4 + bwl pv p.batch + tagP pv + partsAcctN pv ps
+
+def topicAcctN (pv : Int) (t : TopicBatches) : Int :=
+  topicOverheadN pv t.topic + (if pv ≥ 9 then uvarlen t.parts.length - 1 else 0) + partsAcctN pv t.parts
+
+def topicsAcctN (pv : Int) : List TopicBatches → Int
+  | [] => 0
+  | t :: ts => topicAcctN pv t + topicsAcctN pv ts
+
+/-- the whole accounting of a request's topics: per topic, per partition, and the compact topics-array length
+beyond its first byte -/
+def reqAcct (pv : Int) (ts : List TopicBatches) : Int :=
+  topicsAcctN pv ts + (if pv ≥ 9 then uvarlen ts.length - 1 else 0)
+
+theorem partsAcctN_snoc (pv : Int) (l : List PartBatch) (x : PartBatch) :
+    partsAcctN pv (l ++ [x]) = partsAcctN pv l + (4 + bwl pv x.batch + tagP pv) := by
+  induction l with
+  | nil => simp [partsAcctN]
+  | cons a l ih => simp [partsAcctN, ih]; omega
+
+/-- what `tryAddBatch` adds, apart from the growth of the topics-array length -/
+def addLen (pv : Int) (topic : Bytes) (existing : Option Nat) (b : Batch) : Int :=
+  4 + bwl pv b + tagP pv + (match existing with
+    | none => topicOverheadN pv topic
+    | some n => if pv ≥ 9 then uvarlen (n + 1) - uvarlen n else 0)
+
+theorem tryAddBatchLength_eq (pv : Int) (topic : Bytes) (existing : Option Nat) (nt : Nat) (b : Batch) :
+    tryAddBatchLength pv topic existing nt b =
+      addLen pv topic existing b + (if existing.isNone ∧ pv ≥ 9 then uvarlen (nt + 1) - uvarlen nt else 0) := by
   have hf := wlfpv_flexible b pv
   have ht := wlfpv_topicIDs b pv
-  unfold tryAddBatchLength bwl topicOverhead
+  unfold tryAddBatchLength addLen bwl topicOverheadN tagP
   rcases hw : wireLengthForProduceVersion b pv with ⟨w, fl, ti⟩
   rw [hw] at hf ht
   simp only at hf ht ⊢
   subst hf ht
   cases existing with
   | none =>
-    simp only
+    simp only [Option.isNone_none, true_and]
     by_cases h13 : pv ≥ 13
-    · simp [h13]; omega
+    · have h9 : pv ≥ 9 := by omega
+      have h0 : ¬ pv < 0 := by omega
+      simp [h13, h9, h0]; omega
     · by_cases h9 : pv ≥ 9
-      · simp [h13, h9]; omega
-      · simp [h13, h9]; omega
+      · have h0 : ¬ pv < 0 := by omega
+        simp [h13, h9, h0]; omega
+      · by_cases h0 : pv < 0
+        · by_cases hs : (2 + (topic.length : Int) + 4 < 16 + 1 + 1)
+          · simp [h13, h9, h0, hs]; omega
+          · simp [h13, h9, h0, hs]; omega
+        · simp [h13, h9, h0]; omega
   | some n =>
-    simp only
+    simp only [Option.isNone_some, Bool.false_eq_true, false_and, if_false]
     by_cases h9 : pv ≥ 9
-    · simp [h9]; omega
-    · simp [h9]; omega
+    · have h0 : ¬ pv < 0 := by omega
+      simp [h9, h0]; omega
+    · by_cases h0 : pv < 0
+      · simp [h9, h0]; omega
+      · simp [h9, h0]; omega
 
-/-- `addBatch` adds to the closed form exactly what `tryAddBatch` adds to `p.wireLength` -/
+/-- `addBatch` adds `addLen` to the per-topic closed form -/
 theorem addBatch_acct (pv : Int) (ts : List TopicBatches) (topic topicID : Bytes) (pb : PartBatch) :
-    topicsAcct pv (addBatch ts topic topicID pb) =
-      topicsAcct pv ts + tryAddBatchLength pv topic (findParts ts topic) pb.batch := by
-  rw [tryAddBatchLength_eq]
+    topicsAcctN pv (addBatch ts topic topicID pb) =
+      topicsAcctN pv ts + addLen pv topic (findParts ts topic) pb.batch := by
+  unfold addLen
   induction ts with
   | nil =>
-    simp [addBatch, findParts, topicsAcct, topicAcct, partsAcct, uvarlen_one]
+    simp [addBatch, findParts, topicsAcctN, topicAcctN, partsAcctN, uvarlen_one]
     omega
   | cons t rest ih =>
     unfold addBatch findParts
     by_cases ht : t.topic = topic
-    · simp only [ht, if_true, topicsAcct, topicAcct, partsAcct_snoc, List.length_append, List.length_cons, List.length_nil]
+    · simp only [ht, if_true, topicsAcctN, topicAcctN, partsAcctN_snoc, List.length_append, List.length_cons, List.length_nil]
       by_cases h9 : pv ≥ 9
       · simp [h9]; omega
       · simp [h9]; omega
-    · simp only [ht, if_false, topicsAcct]
+    · simp only [ht, if_false, topicsAcctN]
       rw [ih]; omega
+
+theorem addBatch_length (ts : List TopicBatches) (topic topicID : Bytes) (pb : PartBatch) :
+    (addBatch ts topic topicID pb).length = ts.length + (if (findParts ts topic).isNone then 1 else 0) := by
+  induction ts with
+  | nil => simp [addBatch, findParts]
+  | cons t rest ih =>
+    unfold addBatch findParts
+    by_cases ht : t.topic = topic
+    · simp [ht]
+    · simp only [ht, if_false, List.length_cons, ih]; omega
 
 /-- the accounting invariant of `createReq`: `p.wireLength` is the base length plus the closed form -/
 def ReqInv (c : Cfg) (pv : Int) (p : ReqState) : Prop :=
-  p.wireLength = baseProduceRequestLength c + topicsAcct pv p.batches
+  p.wireLength = baseProduceRequestLength c + reqAcct pv p.batches
 
 theorem tryAddBatch_inv (c : Cfg) (limit pv : Int) (p p' : ReqState) (topic topicID : Bytes) (pb : PartBatch)
     (hp : ReqInv c pv p) (h : tryAddBatch limit pv p topic topicID pb = some p') :
@@ -324,9 +411,18 @@ theorem tryAddBatch_inv (c : Cfg) (limit pv : Int) (p p' : ReqState) (topic topi
     simp only [Option.some.injEq] at h
     subst h
     refine ⟨?_, by simp only; omega⟩
-    unfold ReqInv at hp ⊢
+    unfold ReqInv reqAcct at hp ⊢
     simp only
-    rw [addBatch_acct, hp]; omega
+    rw [addBatch_acct, addBatch_length, hp, tryAddBatchLength_eq]
+    cases hfp : findParts p.batches topic with
+    | none =>
+      simp only [Option.isNone_none, true_and, if_true]
+      by_cases h9 : pv ≥ 9
+      · simp only [h9, if_true]; omega
+      · simp only [h9, if_false]; omega
+    | some n =>
+      simp only [Option.isNone_some, Bool.false_eq_true, false_and, if_false, Nat.add_zero]
+      omega
 
 theorem createReqPass_inv (c : Cfg) (limit pv : Int) (p : ReqState) (rbs : List RecBuf)
     (hp : ReqInv c pv p) (hl : p.batches ≠ [] → p.wireLength ≤ limit) :
@@ -355,7 +451,7 @@ theorem createReq_inv (c : Cfg) (pv : Int) (start : Nat) (rbs : List RecBuf) :
   simp only
   have := createReqPass_inv c c.maxBrokerWriteBytes pv
     { wireLength := baseProduceRequestLength c, batches := [] } (rotate rbs start)
-    (by simp [ReqInv, topicsAcct]) (by simp)
+    (by simp [ReqInv, reqAcct, topicsAcctN, uvarlen_zero]) (by simp)
   rcases h : createReqPass c.maxBrokerWriteBytes pv { wireLength := baseProduceRequestLength c, batches := [] } (rotate rbs start) with ⟨p, rot⟩
   rw [h] at this
   simpa using this
@@ -674,6 +770,12 @@ theorem bwl_ge (pv : Int) (b : Batch) (hpv : V2Acct pv) : batchLength b + 1 ≤ 
     · simp only [h8, if_true, batchLength]; omega
     · simp only [h8, if_false, flexibleWireLength]; omega
 
+theorem rwl_ge (pv : Int) (r : Rec) (n : Nat) : (n : Int) ≤ recordWireLengthFor pv r n := by
+  unfold recordWireLengthFor; split <;> (try split) <;> omega
+
+theorem rwl_ge_ms (pv : Int) (r : Rec) (n : Nat) (h : pv < 3) : messageSet1Length r ≤ recordWireLengthFor pv r n := by
+  unfold recordWireLengthFor; simp only [h, if_true]; split <;> omega
+
 /-- a batch accepted by `tryBuffer` under record-batch accounting is, without its length prefix, smaller than the limit -/
 theorem tryBuffer_bound (b b' : Batch) (r : Rec) (pv m : Int) (hpv : V2Acct pv)
     (h : tryBuffer b r pv m = some b') : batchLength b' + 1 ≤ m ∧ b'.records ≠ [] := by
@@ -686,6 +788,7 @@ theorem tryBuffer_bound (b b' : Batch) (r : Rec) (pv m : Int) (hpv : V2Acct pv)
     simp only [Option.some.injEq] at h
     subst h
     simp only [bwl] at hg
+    have hr := rwl_ge pv r (numsWireLength (calculateRecordNumbers b r).1)
     refine ⟨?_, by simp [appendRecord]⟩
     simp only [appendRecord, batchLength] at hg ⊢
     omega
@@ -875,6 +978,192 @@ theorem appendRequest_le_ms (e : Env) (c : Cfg) (v corr pid ep : Int) (ts : List
     List.length_nil, Int.natCast_add] at ht ⊢
   omega
 
+/-! ## the repaired accounting against the untagged closed form (version known) -/
+
+theorem partsAcctN_eq (pv : Int) (h0 : 0 ≤ pv) (ps : List PartBatch) :
+    partsAcctN pv ps = partsAcct pv ps + (if pv ≥ 9 then (ps.length : Int) else 0) := by
+  induction ps with
+  | nil => simp [partsAcctN, partsAcct]
+  | cons p ps ih =>
+    simp only [partsAcctN, partsAcct, ih, tagP, List.length_cons, Int.natCast_add]
+    have hn : ¬ pv < 0 := by omega
+    by_cases h9 : pv ≥ 9
+    · simp only [h9, true_or, if_true]; omega
+    · simp only [h9, hn, or_self, if_false]; omega
+
+theorem topicsAcctN_eq (pv : Int) (h0 : 0 ≤ pv) (ts : List TopicBatches) :
+    topicsAcctN pv ts = topicsAcct pv ts + (if pv ≥ 9 then (totalParts ts : Int) + ts.length else 0) := by
+  induction ts with
+  | nil => simp [topicsAcctN, topicsAcct, totalParts]
+  | cons t ts ih =>
+    have hp := partsAcctN_eq pv h0 t.parts
+    have hn : ¬ pv < 0 := by omega
+    simp only [topicsAcctN, topicsAcct, topicAcctN, topicAcct, topicOverheadN, topicOverhead, totalParts, ih, hp,
+      List.length_cons, Int.natCast_add]
+    by_cases h13 : pv ≥ 13
+    · have h9 : pv ≥ 9 := by omega
+      simp only [h13, h9, if_true]; omega
+    · by_cases h9 : pv ≥ 9
+      · simp only [h13, h9, if_true, if_false]; omega
+      · simp only [h13, h9, hn, false_and, if_false]; omega
+
+/-! ## version unknown while accounting (`produceVersion < 0`), request written at any version -/
+
+theorem bwl_unknown (b : Batch) : b.wireLength ≤ bwl (-1) b ∧ b.v1wireLength ≤ bwl (-1) b ∧ flexibleWireLength b ≤ bwl (-1) b := by
+  unfold bwl wireLengthForProduceVersion
+  simp only [show ((-1 : Int) < 0) from by omega, if_true]
+  refine ⟨?_, ?_, ?_⟩ <;> split <;> split <;> omega
+
+theorem bwl_le_unknown (v : Int) (h0 : 0 ≤ v) (b : Batch) : bwl v b ≤ bwl (-1) b := by
+  have hu := bwl_unknown b
+  have hfl : flexibleWireLength b ≤ bwl (-1) b := hu.2.2
+  generalize bwl (-1) b = U at hu hfl ⊢
+  unfold bwl wireLengthForProduceVersion
+  have hn : ¬ v < 0 := by omega
+  simp only [hn, if_false]
+  by_cases h1 : v = 0 ∨ v = 1
+  · simp only [h1, if_true, v0wireLength]; omega
+  · by_cases h2 : v = 2
+    · simp only [h2, show ¬ ((2 : Int) = 0 ∨ (2 : Int) = 1) from by omega, if_true, if_false]; omega
+    · by_cases h8 : v ≤ 8
+      · simp only [h1, h2, h8, if_true, if_false]; omega
+      · simp only [h1, h2, h8, if_false]; omega
+
+/-- compact length prefixes of at most three bytes: batches below 2 MiB (2^21 - 1 bytes) -/
+def SmallP : List PartBatch → Prop
+  | [] => True
+  | p :: ps => uvarintLen (uvar32 (batchLength p.batch)) ≤ 3 ∧ SmallP ps
+
+def SmallT : List TopicBatches → Prop
+  | [] => True
+  | t :: ts => (t.topic.length < 32768 ∧ SmallP t.parts) ∧ SmallT ts
+
+theorem partAppendTo_le_unknown (e : Env) (v pid ep : Int) (tx : Bool) (pb : PartBatch) (h0 : 0 ≤ v)
+    (h : BatchInv pb.batch ∧ pb.batch.records ≠ []) (hs : v ≥ 9 → uvarintLen (uvar32 (batchLength pb.batch)) ≤ 3) :
+    ((partAppendTo e v pid ep tx pb).length : Int) ≤ 4 + bwl (-1) pb.batch := by
+  have hle := bwl_le_unknown v h0 pb.batch
+  by_cases h3 : v < 3
+  · have := partAppendTo_le_ms e v pid ep tx pb h0 h3 h; omega
+  · by_cases h9 : v ≥ 9
+    · have hb := batchAppendTo_length e.crc32c e.comp pb v pid ep tx h.1
+      have hu := bwl_unknown pb.batch
+      have hsv : (0 : Int) ≤ savingsOf e.comp pb v := Int.natCast_nonneg _
+      have hm := uvarintLen_mono (uvar32 (batchLength pb.batch - savingsOf e.comp pb v)) (uvar32 (batchLength pb.batch))
+        (by simp only [uvar32]; omega)
+      have hsm := hs h9
+      unfold partAppendTo
+      simp only [h3, h9, if_true, if_false, List.length_append, beI_length, List.length_cons, List.length_nil,
+        Int.natCast_add, hb]
+      simp only [batchLength] at hm hsm ⊢
+      omega
+    · have := partAppendTo_le e v pid ep tx pb (by omega) h.1
+      simp only [h9, if_false] at this; omega
+
+theorem partsAppendTo_le_unknown (e : Env) (v pid ep : Int) (tx : Bool) (ps : List PartBatch) (h0 : 0 ≤ v)
+    (h : PartsInv ps) (hs : v ≥ 9 → SmallP ps) :
+    ((partsAppendTo e v pid ep tx ps).length : Int) + ps.length ≤ partsAcctN (-1) ps := by
+  induction ps with
+  | nil => simp [partsAppendTo, partsAcctN]
+  | cons p ps ih =>
+    have h1 := partAppendTo_le_unknown e v pid ep tx p h0 h.1 (fun h9 => (hs h9).1)
+    have h2 := ih h.2 (fun h9 => (hs h9).2)
+    simp only [partsAppendTo, partsAcctN, tagP, List.length_append, List.length_cons, Int.natCast_add]
+    simp only [show ((-1 : Int) ≥ 9 ∨ (-1 : Int) < 0) from Or.inr (by omega), if_true]
+    omega
+
+theorem topicAppendTo_le_unknown (e : Env) (v pid ep : Int) (tx : Bool) (t : TopicBatches) (h0 : 0 ≤ v)
+    (h : PartsInv t.parts) (hid : t.topicID.length = 16) (hs : v ≥ 9 → (t.topic.length < 32768 ∧ SmallP t.parts)) :
+    ((topicAppendTo e v pid ep tx t).length : Int) ≤ topicAcctN (-1) t := by
+  have hp := partsAppendTo_le_unknown e v pid ep tx t.parts h0 h (fun h9 => (hs h9).2)
+  have hnp := uvarlen_le_succ t.parts.length
+  rw [uvarlen_eq] at hnp
+  unfold topicAppendTo topicAcctN topicOverheadN
+  have hm1 : ¬ ((-1 : Int) ≥ 13) := by omega
+  have hm9 : ¬ ((-1 : Int) ≥ 9) := by omega
+  have hm0 : ((-1 : Int) < 0) := by omega
+  simp only [hm1, hm9, hm0, true_and, if_false]
+  by_cases h13 : v ≥ 13
+  · have h9 : v ≥ 9 := by omega
+    simp only [h13, h9, if_true, List.length_append, compactArrayLen, uvarint_length, hid, Int.natCast_add,
+      List.length_cons, List.length_nil]
+    split <;> omega
+  · by_cases h9 : v ≥ 9
+    · have hlt := (hs h9).1
+      have hl3 : uvarintLen (1 + t.topic.length) ≤ 3 := Proof.C17.lenU_le 3 _ (by omega) (by omega)
+      simp only [h13, h9, if_true, if_false, List.length_append, compactArrayLen, compactString_length, uvarint_length,
+        Int.natCast_add, List.length_cons, List.length_nil]
+      split <;> omega
+    · simp only [h13, h9, if_false, List.length_append, arrayLen, string16_length, beI_length, Int.natCast_add,
+        List.length_nil]
+      split <;> omega
+
+theorem topicsAppendTo_le_unknown (e : Env) (v pid ep : Int) (tx : Bool) (ts : List TopicBatches) (h0 : 0 ≤ v)
+    (h : TopicsInv ts) (hs : v ≥ 9 → SmallT ts) :
+    ((topicsAppendTo e v pid ep tx ts).length : Int) ≤ topicsAcctN (-1) ts := by
+  induction ts with
+  | nil => simp [topicsAppendTo, topicsAcctN]
+  | cons t ts ih =>
+    have h1 := topicAppendTo_le_unknown e v pid ep tx t h0 h.1 h.2.1 (fun h9 => (hs h9).1)
+    have h2 := ih h.2.2 (fun h9 => (hs h9).2)
+    simp only [topicsAppendTo, topicsAcctN, List.length_append, Int.natCast_add]
+    omega
+
+/-- version unknown while accounting: what is written at any version 0–13 is at most the accounting, provided
+(for a flexible written version) every batch is below 2 MiB, topic names are below 32 KiB, the transactional id
+is at most 16382 bytes and the request holds fewer than 16383 topics -/
+theorem appendRequest_le_unknown (e : Env) (c : Cfg) (v corr pid ep : Int) (ts : List TopicBatches)
+    (h0 : 0 ≤ v) (h : TopicsInv ts) (hs : v ≥ 9 → SmallT ts ∧ blen c.txnId ≤ 16382 ∧ ts.length < 16383) :
+    ((appendRequest e c v corr pid ep ts).length : Int) ≤ baseProduceRequestLength c + reqAcct (-1) ts := by
+  have ht := topicsAppendTo_le_unknown e v pid ep c.txnId.isSome ts h0 h (fun h9 => (hs h9).1)
+  unfold reqAcct
+  simp only [show ¬ ((-1 : Int) ≥ 9) from by omega, if_false, Int.add_zero]
+  unfold appendRequest requestAppendTo baseProduceRequestLength
+  by_cases h9 : v ≥ 9
+  · have h3 : v ≥ 3 := by omega
+    have htx := compactNullableString_length_le c.txnId (hs h9).2.1
+    have hT : uvarintLen (1 + ts.length) ≤ 2 := Proof.C17.lenU_le 2 _ (by have := (hs h9).2.2; omega) (by omega)
+    simp only [h9, h3, if_true, List.length_append, beI_length, nullableString_length, compactArrayLen, uvarint_length,
+      List.length_cons, List.length_nil, Int.natCast_add] at ht ⊢
+    omega
+  · by_cases h3 : v ≥ 3
+    · simp only [h9, h3, if_true, if_false, List.length_append, beI_length, nullableString_length, arrayLen,
+        List.length_nil, Int.natCast_add] at ht ⊢
+      omega
+    · simp only [h9, h3, if_false, List.length_append, beI_length, nullableString_length, arrayLen,
+        List.length_nil, Int.natCast_add] at ht ⊢
+      omega
+
+/-! ## message sets: what `tryBuffer` guarantees since it sizes records as messages (c322dee) -/
+
+/-- the message-set length of a non-empty batch buffered at a message-set version (or an unknown one) is within
+the limit it was buffered against (`v0wireLength` for v0/v1) -/
+def MsBound (pv m : Int) (b : Batch) : Prop :=
+  b.records ≠ [] → pv < 3 → b.v1wireLength - (if 0 ≤ pv ∧ pv ≤ 1 then 8 else 0) ≤ m
+
+theorem v1_le_bwl (pv : Int) (h3 : pv < 3) (b : Batch) :
+    b.v1wireLength - (if 0 ≤ pv ∧ pv ≤ 1 then 8 else 0) ≤ bwl pv b := by
+  unfold bwl wireLengthForProduceVersion
+  by_cases hn : pv < 0
+  · have hc : ¬ (0 ≤ pv ∧ pv ≤ 1) := by omega
+    simp only [hn, hc, if_true, if_false]
+    split <;> split <;> omega
+  · have hcases : pv = 0 ∨ pv = 1 ∨ pv = 2 := by omega
+    rcases hcases with h | h | h <;> subst h <;> simp [v0wireLength]
+
+theorem tryBuffer_msBound (b b' : Batch) (r : Rec) (pv m : Int) (h : tryBuffer b r pv m = some b') : MsBound pv m b' := by
+  intro _ h3
+  have hr := rwl_ge_ms pv r (numsWireLength (calculateRecordNumbers b r).1) h3
+  have hb := v1_le_bwl pv h3 b
+  unfold tryBuffer at h
+  simp only at h
+  split at h
+  · simp at h
+  · rename_i hle
+    simp only [Option.some.injEq] at h
+    subst h
+    simp only [appendRecord, bwl] at hb ⊢
+    omega
+
 /-! ## timestamps of a buffered batch -/
 
 /-- `firstTimestamp + delta` is each record's own timestamp; `maxTimestampDelta` is the largest delta (≥ 0, attained) -/
@@ -973,7 +1262,10 @@ theorem bufferAll_pred (Q : Batch → Prop) (pv m : Int) (hQ0 : Q newRecordBatch
 theorem bufferAll_tsInv (pv m : Int) (rs : List Rec) : ∀ b ∈ (bufferAll pv m [] rs).1, TsInv b :=
   bufferAll_pred TsInv pv m tsInv_new (fun r b b' hb h => tryBuffer_tsInv b b' r pv m hb h) rs [] (by simp)
 
-/-! ## a few concrete LEB128 lengths (for the counterexample) -/
+theorem bufferAll_msBound (pv m : Int) (rs : List Rec) : ∀ b ∈ (bufferAll pv m [] rs).1, MsBound pv m b :=
+  bufferAll_pred (MsBound pv m) pv m (fun h => absurd rfl h) (fun r b b' _ h => tryBuffer_msBound b b' r pv m h) rs [] (by simp)
+
+/-! ## a few concrete LEB128 lengths -/
 theorem l0 : lenU 0 = 1 := Proof.C17.lenU_lt (by omega)
 theorem l62 : lenU 62 = 1 := Proof.C17.lenU_lt (by omega)
 theorem l2 : lenU 2 = 1 := Proof.C17.lenU_lt (by omega)
